@@ -38,7 +38,26 @@ func schedBody(v int) []byte { return []byte(fmt.Sprintf("body-of-version-%d-012
 // number of origin fetches and the maximum in flight at once.
 func schedReplay(in []string, id int) hx.Case {
 	c := hx.Case{Stream: "sched", ID: id, In: in}
-	c.Impl = hx.Guard(func() []string {
+	c.Impl = schedOnce(in, id)
+	for try := 0; try < 2 && schedStalled(c.Impl); try++ {
+		// a stall may be load on the machine: the case is repeated alone; only a stall that
+		// repeats is reported
+		c.Impl = schedOnce(in, id)
+	}
+	return c
+}
+
+func schedStalled(impl []string) bool {
+	for _, t := range impl {
+		if strings.Contains(t, "stall") || t == "stuck" {
+			return true
+		}
+	}
+	return false
+}
+
+func schedOnce(in []string, id int) []string {
+	return hx.Guard(func() []string {
 		if len(in) < 2 {
 			return []string{"err:input"}
 		}
@@ -106,6 +125,9 @@ func schedReplay(in []string, id int) hx.Case {
 			}
 		}
 		for _, s := range steps {
+			if len(out) > 0 && schedStalled(out[len(out)-1:]) {
+				break // the rest of the schedule is meaningless after a stall
+			}
 			switch {
 			case s == "nf":
 				out = append(out, ctl.StepNotifier())
@@ -140,7 +162,6 @@ func schedReplay(in []string, id int) hx.Case {
 		out = append(out, hx.I(fetches), hx.I(maxIn))
 		return out
 	})
-	return c
 }
 
 // schedView classifies a client view: C<v>[s] complete (stale), T<v> truncated, H headers only,
